@@ -287,11 +287,59 @@ fn check<M: Matcher>(line: &str, c: &C13, m: &M, msx: &str, head: &str, ctx: &mu
     if final_empty {
         ctx.rep.branch("empty-match-after-last-terminator");
     }
-    let class = if cfg.inv && guard == "0" {
-        "ml-invert-resumes-at-line-end"
-    } else {
-        ""
-    };
+    // Class F19 `ml-invert-resumes-at-line-end` is attributed only when its mechanism is at work in this very case:
+    //   * the search is inverted and the searcher delivers exactly what the inverted scan delivers (`mlSpecInv`);
+    //   * S = the line ranges of the matches of the specification's iteration, F = the line ranges the inverted scan
+    //     finds; they agree up to an index k >= 1 and differ at k, where S has a match M that starts inside the LAST
+    //     line of the range R = F[k-1] the scan had just found (`start of that line <= M.s < R.e`): the scan resumed
+    //     at R.e and never saw M — from there on the two iterations are out of step (M's lines are reported, or a
+    //     match overlapping M is found instead);
+    //   * every line on which searcher and model disagree about "matched" lies at or after R.e.
+    // `guard == "0"` (invertSafe false) is the coarse predicate the class used to be decided by; it is kept as a counter.
+    let coarse = cfg.inv && guard == "0";
+    let mut class = "";
+    if cfg.inv && imp != spec {
+        let specinv = ctx.drv.ask(&format!("c13.specinv {} {} {}", csx, msx, inp));
+        let invr = ctx.drv.ask(&format!("c13.invranges {} {} {}", csx, msx, inp));
+        let parse_spans = |t: &str| -> Vec<(usize, usize)> {
+            if t == "-" {
+                return vec![];
+            }
+            t.split(' ').filter_map(|x| x.split_once(':')).filter_map(|(a, b)| Some((a.parse().ok()?, b.parse().ok()?))).collect()
+        };
+        let term = cfg.lt.byte();
+        let line_start = |p: usize| -> usize { c.input[..p.min(c.input.len())].iter().rposition(|&b| b == term).map_or(0, |i| i + 1) };
+        // `lines::locate`
+        let locate = |s: usize, e: usize| -> (usize, usize) {
+            let ls = line_start(s);
+            let le = if e > ls && c.input.get(e - 1) == Some(&term) {
+                e
+            } else {
+                c.input[e.min(c.input.len())..].iter().position(|&b| b == term).map_or(c.input.len(), |i| e + i + 1)
+            };
+            (ls, le)
+        };
+        let matched = |run: &str| -> std::collections::BTreeSet<usize> {
+            split_run(run).0.iter().filter(|e| e.starts_with("m ")).filter_map(|e| e.split(' ').nth(2).and_then(|x| x.parse().ok())).collect()
+        };
+        let (mi, ms) = (matched(&imp), matched(&spec));
+        let deviating: Vec<usize> = mi.symmetric_difference(&ms).cloned().collect();
+        let ms_spans = parse_spans(&matches);
+        let found = parse_spans(&invr);
+        let seq_s: Vec<(usize, usize)> = ms_spans.iter().map(|&(s, e)| locate(s, e)).collect();
+        let k = seq_s.iter().zip(found.iter()).take_while(|(a, b)| a == b).count();
+        let mechanism = k >= 1 && k < seq_s.len() && {
+            let (ms_, _) = ms_spans[k];
+            let (rs, re) = found[k - 1];
+            rs < re && line_start(re - 1) <= ms_ && ms_ < re && !deviating.is_empty() && deviating.iter().all(|&o| o >= re)
+        };
+        if !is_driver_error(&specinv) && imp == specinv && mechanism {
+            class = "ml-invert-resumes-at-line-end";
+            ctx.rep.branch("class:ml-invert-resumes-at-line-end:attributed");
+        } else if coarse {
+            ctx.rep.branch("class:ml-invert-resumes-at-line-end:coarse-predicate-only-reported-unclassified");
+        }
+    }
     if imp != spec {
         ctx.rep.violation(Violation {
             kind: "impl_vs_spec".into(),
@@ -375,7 +423,99 @@ fn check<M: Matcher>(line: &str, c: &C13, m: &M, msx: &str, head: &str, ctx: &mu
     }
 }
 
+/// `mlbom <cfg> s<d> <pattern-hex> <text-hex> <utf8|utf16le|utf16be>`: the text is stored with a byte-order mark
+/// (UTF-16: transcoded), so every strategy has to decode it before the multi-line search. Each strategy's event stream
+/// (slice = what a memory map is searched with, reader, path) must be the model's stream for the DECODED text.
+fn run_bom_case(line: &str, ctx: &mut Ctx) {
+    let p: Vec<&str> = line.split_whitespace().collect();
+    let parsed = (|| {
+        if p.len() != 6 {
+            return None;
+        }
+        Some((Cfg::parse_token(p[1])?, p[2] == "s1", String::from_utf8(unhex(p[3])?).ok()?, unhex(p[4])?, p[5].to_string()))
+    })();
+    let Some((cfg0, dotall, pattern, text, enc)) = parsed else {
+        ctx.rep.violation(Violation {
+            kind: "impl_vs_model".into(),
+            class: "".into(),
+            tie: "harness".into(),
+            case: line.to_string(),
+            detail: "unparsable mlbom case line".into(),
+        });
+        return;
+    };
+    ctx.rep.eval();
+    let cfg = cfg0.effective();
+    let m = match build_ml(&cfg, dotall, &pattern) {
+        Ok(m) => m,
+        Err(_) => {
+            ctx.rep.branch("pattern-rejected");
+            return;
+        }
+    };
+    let raw: Vec<u8> = match enc.as_str() {
+        "utf8" => [&b"\xEF\xBB\xBF"[..], &text[..]].concat(),
+        "utf16le" => std::iter::once([0xFFu8, 0xFE]).chain(text.iter().map(|&b| [b, 0])).flatten().collect(),
+        _ => std::iter::once([0xFEu8, 0xFF]).chain(text.iter().map(|&b| [0, b])).flatten().collect(),
+    };
+    // what the searcher searches after decoding (BOM sniffing on, as in ripgrep): the mark is stripped, UTF-16 is
+    // transcoded to UTF-8
+    let decoded: Vec<u8> = text.clone();
+    let (tsx, _) = table_sx(&m, &cfg, &decoded);
+    let model = ctx.drv.ask(&format!("c13.model {} {} {} (sink all)", cfg.to_sx(), tsx, hex(&decoded)));
+    if is_driver_error(&model) {
+        ctx.rep.violation(Violation {
+            kind: "impl_vs_model".into(),
+            class: "".into(),
+            tie: "driver".into(),
+            case: line.to_string(),
+            detail: format!("driver answered {}", model),
+        });
+        return;
+    }
+    ctx.rep.branch(&format!("bom:{}", enc));
+    ctx.files += 1;
+    let f = scratch_file(&ctx.scratch, &format!("c13-bom-{}.txt", ctx.files % 64), &raw);
+    let mut s = cfg.searcher_bom(false);
+    let mut sm = cfg.searcher_bom(true);
+    let runs = [
+        ("slice", run_with(&mut s, &m, &raw, Script::All, &Strategy::Slice).0),
+        ("reader(1)", run_with(&mut s, &m, &raw, Script::All, &Strategy::Reader(1)).0),
+        ("reader(7)", run_with(&mut s, &m, &raw, Script::All, &Strategy::Reader(7)).0),
+        ("path", run_with(&mut s, &m, &raw, Script::All, &Strategy::Path(f.clone())).0),
+        ("path-mmap", run_with(&mut sm, &m, &raw, Script::All, &Strategy::Path(f)).0),
+    ];
+    for (name, out) in runs.iter() {
+        if *out != model {
+            ctx.rep.violation(Violation {
+                kind: "impl_vs_model".into(),
+                class: "".into(),
+                tie: format!("{} strategy on a BOM-marked ({}) input vs the Lean model on the decoded text (multi-line search)", name, enc),
+                case: line.to_string(),
+                detail: format!("{:?} on {:?}: {} gives {} model {}", pattern, show(&text), name, out, model),
+            });
+        }
+    }
+}
+
+fn gen_bom_case(rng: &mut Rng) -> String {
+    loop {
+        let c = gen_case(rng);
+        if let Pat::Re { dotall, pattern } = &c.pat {
+            // the text must survive the round trip through UTF-16: ASCII only
+            let text: Vec<u8> = c.input.iter().map(|&b| if b < 0x80 { b } else { b'a' }).collect();
+            // a file that is nothing but a 2-byte mark is too short for BOM sniffing (3 bytes are peeked): not generated
+            let enc = if text.is_empty() { "utf8" } else { *rng.pick(&["utf8", "utf16le", "utf16be"]) };
+            return format!("mlbom {} s{} {} {} {}", c.cfg.token(), *dotall as u8, hex(pattern.as_bytes()), hex(&text), enc);
+        }
+    }
+}
+
 fn run_case(line: &str, ctx: &mut Ctx) {
+    if line.starts_with("mlbom ") {
+        run_bom_case(line, ctx);
+        return;
+    }
     let c = match C13::parse(line) {
         Some(c) => c,
         None => {
@@ -423,7 +563,8 @@ fn main() {
          empty matches, (?s) / --multiline-dotall, CRLF) and a literal matcher whose needle contains the terminator; A,B in 0..3, \
          inversion, passthru, line numbers on/off; slice, reader (1-byte, 7-byte chunks) and path strategies. Non-trivial = at least \
          two matches and a delivered block that spans several lines. Cases whose pattern cannot match the terminator are downgraded \
-         by the searcher to line-by-line search and only compared with the model.",
+         by the searcher to line-by-line search and only compared with the model. Every twelfth case stores the text with a UTF-8 / UTF-16LE / \
+         UTF-16BE byte-order mark: slice, reader, path and mmap'ed path must all deliver the model's stream for the decoded text.",
     );
     let mut ctx = Ctx { drv, rep, scratch: args.scratch.clone(), files: 0, searchers: Default::default() };
     for c in corpus_cases(&args) {
@@ -433,7 +574,7 @@ fn main() {
         let mut rng = Rng::new(args.seed);
         let n = args.cases.unwrap_or(if args.thorough { 120000 } else { 6000 });
         for i in 0..n {
-            let c = gen_case(&mut rng).line();
+            let c = if i % 12 == 11 { gen_bom_case(&mut rng) } else { gen_case(&mut rng).line() };
             if i < 8 {
                 ctx.rep.sample(c.clone());
             }
